@@ -139,3 +139,27 @@ func (tree *Tree[T]) buildMethods(num int, methods ...string) {
 
 	buildMethodIndexes(tree.node.methodIndex)
 }
+
+// 根据现有节点重新统计各个请求方法的数量
+//
+// 删除操作并不一定真的删除了指定的请求方法，也有可能删除了未指定的请求方法（比如删除整个节点），
+// 所以不能简单地对参数中的请求方法作减法，而是以现有的节点为准重新统计。
+func (tree *Tree[T]) recountMethods() {
+	clear(tree.methods)
+	for _, c := range tree.node.children {
+		c.countMethods(tree.methods)
+	}
+	tree.buildMethods(0)
+}
+
+func (n *node[T]) countMethods(methods map[string]int) {
+	for m := range n.handlers {
+		if m != methodNotAllowed && m != http.MethodOptions && m != http.MethodHead {
+			methods[m]++
+		}
+	}
+
+	for _, c := range n.children {
+		c.countMethods(methods)
+	}
+}
